@@ -405,9 +405,10 @@ func (it *Interp) nameTerm(t *fterm, names map[int]string) string {
 
 // floatFact: an undecided comparison between floats taken on this path.
 type floatFact struct {
-	Op    string
-	A, B  *fterm
-	Taken bool
+	Op     string
+	A, B   *fterm
+	Taken  bool
+	PA, PB string // for equality of two points: their identities
 }
 
 // termNonNeg: the term is a square (one monomial with even exponents and a
@@ -431,4 +432,107 @@ func termNonNeg(t *fterm) bool {
 		}
 	}
 	return true
+}
+
+// polySign: the sign of a polynomial as far as the signs of its coefficients
+// show it: 0 identically zero; +1/-1 every coefficient >= 0 / <= 0 over atoms
+// that are known non-negative (or appear with even exponents); +2/-2 the same
+// and some monomial is a product of atoms known to be positive (so the value is
+// strictly positive/negative); 9 unknown.
+func (it *Interp) polySign(p poly) int {
+	if len(p) == 0 {
+		return 0
+	}
+	pos, neg, strict := true, true, false
+	for k, c := range p {
+		allPos := true
+		for id, e := range parseMono(k) {
+			if e%2 != 0 && !it.NonNeg[id] {
+				return 9
+			}
+			if !it.Positive[id] {
+				allPos = false
+			}
+		}
+		if allPos {
+			strict = true
+		}
+		if c.Sign() < 0 {
+			pos = false
+		}
+		if c.Sign() > 0 {
+			neg = false
+		}
+	}
+	switch {
+	case pos && strict:
+		return 2
+	case pos:
+		return 1
+	case neg && strict:
+		return -2
+	case neg:
+		return -1
+	}
+	return 9
+}
+
+// termCompare decides a comparison between two terms when the sign of their
+// difference follows from the signs of its coefficients.  Divisors must be
+// strictly positive or strictly negative by the same reading.
+func (it *Interp) termCompare(op string, a, b *fterm) (bool, bool) {
+	d := termAdd(b, a, -1) // b - a
+	if d == nil {
+		return false, false
+	}
+	ds := it.polySign(d.D)
+	if ds != 2 && ds != -2 {
+		return false, false
+	}
+	ns := it.polySign(d.N)
+	if ns == 9 {
+		return false, false
+	}
+	if ds < 0 {
+		ns = -ns
+	}
+	// ns: sign of b - a
+	switch ns {
+	case 0:
+		switch op {
+		case "==", "<=", ">=":
+			return true, true
+		default:
+			return false, true
+		}
+	case 2: // a < b
+		switch op {
+		case "<", "<=", "!=":
+			return true, true
+		default:
+			return false, true
+		}
+	case -2: // a > b
+		switch op {
+		case ">", ">=", "!=":
+			return true, true
+		default:
+			return false, true
+		}
+	case 1: // a <= b
+		switch op {
+		case "<=":
+			return true, true
+		case ">":
+			return false, true
+		}
+	case -1: // a >= b
+		switch op {
+		case ">=":
+			return true, true
+		case "<":
+			return false, true
+		}
+	}
+	return false, false
 }
